@@ -251,13 +251,13 @@ func (r *run) restartNode(graceful bool) bool {
 
 // execute performs one run and returns its events.
 func execute(sc *Scenario, tr int) (*run, error) {
-	w, err := newWorld(sc.Seed, sc.NewState, sc.InitLen, sc.Plan)
+	w, err := newWorld(sc.Seed, sc.NewState, sc.InitLen, sc.Plan, sc.Shapes)
 	if err != nil {
 		return nil, err
 	}
 	r := &run{
 		sc: sc, w: w, node: chainkit.NewNode(nil, sc.NewState), curVer: 1, abort: make(chan struct{}),
-		rng: rand.New(rand.NewSource(sc.Seed*7919 + 13)),
+		rng: rand.New(rand.NewSource(sc.Seed*7919 + 13)), servedOK: map[int]bool{},
 	}
 	r.mu.Lock()
 	r.log(vh.J{"ev": "Reset", "tr": tr, "chain": r.cur(), "name": sc.Name})
